@@ -26,6 +26,21 @@ pub fn exec(s: &mut CrdtSession, toks: &[&str], enc: TextEncoding) -> Vec<String
             s.iso_snap.insert(toks[1].to_string(), hs);
             res
         }
+        // crdt.x.isodup r h k : read-only probe on a COPY of the replica (nothing pending): isolate at the heads list
+        // [h; k] (the same hash k times — as a SET it is {h}) and read with no transaction open
+        "crdt.x.isodup" => {
+            let h = parse_hashes(toks[2])[0];
+            let k: usize = toks[3].parse().unwrap();
+            let d = s.replicas.get_mut(toks[1]).unwrap();
+            let mut dup = d.clone();
+            dup.isolate(&vec![h; k]);
+            let got = show_doc(&dup, None, enc);
+            let mut one = d.clone();
+            one.isolate(&[h]);
+            let mut res = vec![got.clone()];
+            if got != show_doc(&one, None, enc) { res.push(format!("! C29 sig=isolated-read-repeated-head reads inside isolate([h; {}]) differ from reads inside isolate([h])", k)); }
+            res
+        }
         // crdt.x.isocheck r : C29 direct oracle, on an isolated replica with nothing pending: the committed
         // isolated changes "depend only on those heads and the isolated chain" — a fresh document given
         // exactly the ancestors of the replica's (isolation) heads accepts them, and shows what the
@@ -283,6 +298,17 @@ pub fn generate(r: &mut Rng, _opts: &BTreeMap<String, String>, sess: &mut Sessio
     for _ in 0..r.range(0, 3) { local_tx(r, sess, out, "r0", &mut known, &mut all); }
     if !all.is_empty() { exec_line(sess, &format!("crdt.apply r0 {}", all.join(",")), out); }
     exec_line(sess, "crdt.state r0", out);
+    // a heads list that repeats one current head as many times as the document has heads (it is NOT the
+    // set of current heads), and one that repeats it twice
+    {
+        let heads = sess.crdt.replicas.get_mut("r0").unwrap().get_heads();
+        if heads.len() >= 2 {
+            let h = hex::encode(heads[r.below(heads.len() as u64) as usize].0);
+            exec_line(sess, &format!("crdt.x.isodup r0 {} {}", h, heads.len()), out);
+            if heads.len() != 2 { exec_line(sess, &format!("crdt.x.isodup r0 {} 2", h), out); }
+            out.count("isolate_repeated_head");
+        }
+    }
     let rounds = r.range(1, 3);
     for _ in 0..rounds {
         let own: Vec<String> = sess.crdt.replicas.get_mut("r0").unwrap().get_changes(&[]).iter().map(|c| hex::encode(c.hash().0)).collect();
